@@ -78,6 +78,8 @@ def run(ctx):
     ctx.rule("C14-R2", "evaluation window: half-widths use sx, sy and the "
              "rotation with a factor >= 5; bounds clipped with floor/ceil to "
              "[0, shape[axis]] of the matching axis before int()")
+    import sympy as sp
+    from .. import sym
     fac = [s for s in walk_no_nested(mm.node) if isinstance(s, ast.Assign)
            and norm(s.targets[0]) == "factor"]
     fv = prog.const_value(mod, fac[0].value) if len(fac) == 1 else None
@@ -85,72 +87,102 @@ def run(ctx):
               isinstance(fv, (int, float)) and fv >= 5,
               "the model must be evaluated out to at least 5 sigma",
               node=fac[0] if fac else mm.node)
-    for off, axis in (("xoff", 0), ("yoff", 1)):
-        d = [s for s in walk_no_nested(mm.node) if isinstance(s, ast.Assign)
-             and norm(s.targets[0]) == off]
-        ok = len(d) == 1 and {"factor", "sx", "sy", "phi"} <= \
-            names_in(d[0].value)
-        if ok:
-            # compare as expressions (any equivalent spelling is accepted)
-            import sympy as sp
-            from .. import sym
-            F, SX, SY = sp.symbols("factor sx sy", positive=True)
-            PH = sp.Symbol("phi", real=True)
-            try:
-                e = sym.Translator(prog, mod, {"factor": F, "sx": SX,
-                                               "sy": SY, "phi": PH}).expr(
-                    d[0].value)
-                ref = F * (sp.Abs(SX * sp.cos(PH)) + sp.Abs(SY * sp.sin(PH))) \
-                    if axis == 0 else \
-                    F * (sp.Abs(SX * sp.sin(PH)) + sp.Abs(SY * sp.cos(PH)))
-                ok = sp.simplify(e - ref) == 0
-            except sym.Untranslatable:
-                ok = False
-        ctx.check("C14-R2", mm, "half-width %s" % off, ok,
-                  "the half-width along axis %d must be factor*(|sx cos| + "
-                  "|sy sin|) resp. factor*(|sx sin| + |sy cos|)" % axis,
-                  node=d[0] if d else mm.node)
-    for nm, fn, clipf, other, axis in (("xmin", "floor", "max", "0", 0),
-                                       ("xmax", "ceil", "min", "shape[0]",
-                                        0),
-                                       ("ymin", "floor", "max", "0", 1),
-                                       ("ymax", "ceil", "min", "shape[1]",
-                                        1)):
-        d = [s for s in walk_no_nested(mm.node) if isinstance(s, ast.Assign)
-             and norm(s.targets[0]) == nm and isinstance(s.value, ast.Call)
-             and norm(s.value.func) in ("max", "min")]
-        ok = len(d) == 1 and norm(d[0].value.func) == clipf and \
-            sorted(norm(a).replace(" ", "") for a in d[0].value.args) == \
-            sorted(["np.%s(%s)" % (fn, nm), other])
-        ctx.check("C14-R2", mm, "clip of %s" % nm, ok,
-                  "%s must be %s(np.%s(%s), %s)" % (nm, clipf, fn, nm, other),
-                  node=d[0] if d else mm.node)
     grids = [s for s in walk_no_nested(mm.node) if isinstance(s, ast.Assign)
              and isinstance(s.value, ast.Subscript) and
              prog.dotted(mod, s.value.value) == "numpy.mgrid"]
-    okg = len(grids) == 1 and norm(grids[0].value.slice).replace(" ", "") \
-        == "(slice(int(xmin),int(xmax),None),slice(int(ymin),int(ymax),None))"
-    if len(grids) == 1 and not okg:
-        sl = grids[0].value.slice
-        okg = isinstance(sl, ast.Tuple) and [
-            (norm(e.lower), norm(e.upper)) for e in sl.elts] == [
-                ("int(xmin)", "int(xmax)"), ("int(ymin)", "int(ymax)")]
-    ctx.check("C14-R2", mm, "pixel grid over the clipped window", okg,
-              "np.mgrid must span int(xmin):int(xmax), int(ymin):int(ymax)",
-              node=grids[0] if grids else mm.node)
+    if len(grids) != 1 or not isinstance(grids[0].value.slice, ast.Tuple) or \
+            len(grids[0].value.slice.elts) != 2:
+        raise AnalysisError("C14-R2: np.mgrid[a:b, c:d] pixel grid not found")
+    F, SX, SY = sp.symbols("factor sx sy", positive=True)
+    PH, XO, YO = sp.symbols("phi xo yo", real=True)
+    N0, N1 = sp.symbols("n0 n1", positive=True)
+
+    class T(sym.Translator):
+        def expr(self, n):
+            if isinstance(n, ast.Subscript) and norm(n.value) == "shape" and \
+                    isinstance(n.slice, ast.Constant):
+                return (N0, N1)[n.slice.value]
+            return super().expr(n)
+
+        def call(self, n):
+            fn = norm(n.func)
+            if fn in ("max", "min") and len(n.args) == 2:
+                a_, b_ = self.expr(n.args[0]), self.expr(n.args[1])
+                return sp.Max(a_, b_) if fn == "max" else sp.Min(a_, b_)
+            if fn in ("np.floor", "numpy.floor", "math.floor"):
+                return sp.floor(self.expr(n.args[0]))
+            if fn in ("np.ceil", "numpy.ceil", "math.ceil"):
+                return sp.ceiling(self.expr(n.args[0]))
+            if fn == "int" and n.args:
+                return self.expr(n.args[0])
+            return super().call(n)
+    tr = T(prog, mod, {"factor": F, "sx": SX, "sy": SY, "xo": XO, "yo": YO})
+    # value-number the loop body up to the grid (phi = radians(theta) etc.)
+    loop0 = [l for l in mm.node.body if isinstance(l, ast.For)]
+    pre = sorted((x for x in ast.walk(loop0[0]) if isinstance(
+        x, (ast.Assign, ast.AugAssign)) and x.lineno < grids[0].lineno),
+        key=lambda x: x.lineno)
+    keep = {"factor": F, "sx": SX, "sy": SY, "xo": XO, "yo": YO}
+    tr.env["phi"] = PH
+    for st in pre:
+        tnames = [norm(t) for t in (st.targets if isinstance(st, ast.Assign)
+                                    else [st.target])]
+        if any(t in ("phi",) or "," in t and ("xo" in t or "sx" in t)
+               for t in tnames):
+            continue                  # phi / the sky2pix_ellipse unpacking
+        try:
+            tr.exec([st])
+        except sym.Untranslatable:
+            pass
+        tr.env.update(keep)
+        tr.env["phi"] = PH
+    sl = grids[0].value.slice.elts
+    try:
+        got = [tr.expr(sl[0].lower), tr.expr(sl[0].upper),
+               tr.expr(sl[1].lower), tr.expr(sl[1].upper)]
+    except sym.Untranslatable as e:
+        raise AnalysisError("C14-R2: window bounds not translatable: %s" % e)
+    hx = F * (sp.Abs(SX * sp.cos(PH)) + sp.Abs(SY * sp.sin(PH)))
+    hy = F * (sp.Abs(SX * sp.sin(PH)) + sp.Abs(SY * sp.cos(PH)))
+    want = [sp.Max(sp.floor(XO - hx), 0), sp.Min(sp.ceiling(XO + hx), N0),
+            sp.Max(sp.floor(YO - hy), 0), sp.Min(sp.ceiling(YO + hy), N1)]
+    names_ = ["row start", "row stop", "column start", "column stop"]
+    for g_, w_, nm in zip(got, want, names_):
+        same = (g_ == w_) or sp.simplify(g_ - w_) == 0
+        ctx.check("C14-R2", mm, "window %s" % nm, bool(same),
+                  "the evaluation window's %s must be %s (half-width "
+                  "factor*(|sx cos|+|sy sin|) along rows, "
+                  "factor*(|sx sin|+|sy cos|) along columns, floor/ceil, "
+                  "clipped to the image); found %s" % (nm, w_, g_),
+                  {"found": str(g_)}, grids[0])
     # ---------------------------------------------------------------- R3
     ctx.rule("C14-R3", "sign pairing and additive accumulation")
     mr = prog.func("AeRes.make_residual")
     ifs = [s for s in walk_no_nested(mr.node) if isinstance(s, ast.If) and
            {"add", "mask"} & names_in(s.test)]
     ok = False
+    triples = []
     for s in ifs:
-        t = norm(s.test).replace(" ", "")
-        if t in ("addormask", "maskoradd") and len(s.body) == 1 and \
-                len(s.orelse) == 1:
-            ok = norm(s.body[0]).replace(" ", "") == "residual=data+model" \
-                and norm(s.orelse[0]).replace(" ", "") == \
-                "residual=data-model"
+        if len(s.body) == 1 and len(s.orelse) == 1 and \
+                isinstance(s.body[0], ast.Assign) and \
+                isinstance(s.orelse[0], ast.Assign) and \
+                norm(s.body[0].targets[0]) == norm(s.orelse[0].targets[0]):
+            triples.append((s.test, s.body[0].value, s.orelse[0].value))
+    for s in walk_no_nested(mr.node):
+        if isinstance(s, ast.Assign) and isinstance(s.value, ast.IfExp) and \
+                {"add", "mask"} & names_in(s.value.test):
+            triples.append((s.value.test, s.value.body, s.value.orelse))
+            ifs.append(s)
+    for test, then, other in triples:
+        t = norm(test).replace(" ", "")
+        plus = {"data+model", "model+data"}
+        if t in ("addormask", "maskoradd"):
+            ok = norm(then).replace(" ", "") in plus and \
+                norm(other).replace(" ", "") == "data-model"
+        elif t in ("not(addormask)", "notaddandnotmask",
+                   "not(maskoradd)"):
+            ok = norm(other).replace(" ", "") in plus and \
+                norm(then).replace(" ", "") == "data-model"
     ctx.check("C14-R3", mr, "add/mask -> +, else -", ok,
               "residual must be data + model when adding or masking and "
               "data - model otherwise", node=ifs[0] if ifs else mr.node)
@@ -170,11 +202,16 @@ def run(ctx):
     for i, s in enumerate(body):
         if isinstance(s, ast.If) and any(isinstance(b, ast.Continue)
                                          for b in s.body):
-            t = norm(s.test).replace(" ", "")
-            if t == "not0<xo<shape[0]":
-                guards["x"] = i
-            if t == "not0<yo<shape[1]":
-                guards["y"] = i
+            parts = s.test.values if isinstance(s.test, ast.BoolOp) and \
+                isinstance(s.test.op, ast.Or) else [s.test]
+            for part in parts:
+                t = norm(part).replace(" ", "")
+                if t in ("not0<xo<shape[0]", "not(0<xo<shape[0])",
+                         "xo<=0orxo>=shape[0]"):
+                    guards["x"] = i
+                if t in ("not0<yo<shape[1]", "not(0<yo<shape[1])",
+                         "yo<=0oryo>=shape[1]"):
+                    guards["y"] = i
     first_use = min([i for i, s in enumerate(body) if any(
         isinstance(x, ast.Subscript) and norm(x.value) in ("m", "np.mgrid")
         for x in ast.walk(s))] or [len(body)])
@@ -188,13 +225,30 @@ def run(ctx):
     ctx.rule("C14-R5", "mask mode: NaN exactly where model >= threshold")
     wh = [s for s in walk_no_nested(mm.node) if isinstance(s, ast.Assign)
           and norm(s.targets[0]) == "indices"]
-    want = {"np.where(model>=frac*src.peak_flux)",
-            "np.where(model>=sigma*src.local_rms)"}
-    got = {norm(s.value).replace(" ", "").replace("(frac*src.peak_flux)",
-                                                  "frac*src.peak_flux")
-           .replace("(sigma*src.local_rms)", "sigma*src.local_rms")
-           for s in wh}
-    ctx.check("C14-R5", mm, "mask thresholds %s" % sorted(got), got == want,
+    want = {"frac*src.peak_flux", "sigma*src.local_rms"}
+    got = set()
+    okcmp = bool(wh)
+    for s_ in wh:
+        v = s_.value
+        c_ = v.args[0] if isinstance(v, ast.Call) and norm(v.func) in (
+            "np.where", "numpy.where") and v.args else None
+        if not (isinstance(c_, ast.Compare) and len(c_.ops) == 1 and
+                isinstance(c_.ops[0], ast.GtE) and norm(c_.left) == "model"):
+            okcmp = False
+            continue
+        thr = c_.comparators[0]
+        if isinstance(thr, ast.Name):
+            for d_ in walk_no_nested(mm.node):
+                if isinstance(d_, ast.Assign) and \
+                        norm(d_.targets[0]) == thr.id:
+                    vv = d_.value
+                    for e_ in ([vv.body, vv.orelse] if isinstance(
+                            vv, ast.IfExp) else [vv]):
+                        got.add(norm(e_).replace(" ", "").strip("()"))
+        else:
+            got.add(norm(thr).replace(" ", "").strip("()"))
+    ctx.check("C14-R5", mm, "mask thresholds %s" % sorted(got),
+              okcmp and got == want,
               "masked pixels are those with model >= frac*peak_flux (frac "
               "given) or >= sigma*local_rms", node=wh[0] if wh else mm.node)
     st = [s for s in walk_no_nested(mm.node) if isinstance(s, ast.Assign) and
